@@ -78,12 +78,30 @@ func InstanceLoadForm(obj Instance) (form List) {
 			},
 		},
 	}
+	var fresh Instance
 	for _, name := range names {
 		if name == "self" {
 			continue
 		}
 		iv, _ := obj.SlotValue(Symbol(name))
 		if iv == Unbound {
+			// make-instance gives a slot with a default (initform, flavor
+			// default) a value, the slot of this instance has none.
+			if fresh == nil {
+				fresh = freshInstance(obj)
+			}
+			if fv, has := fresh.SlotValue(Symbol(name)); has && fv != Unbound {
+				form = append(form,
+					List{
+						Symbol("slot-makunbound"),
+						Symbol("inst"),
+						List{
+							Symbol("quote"),
+							Symbol(name),
+						},
+					},
+				)
+			}
 			continue
 		}
 		form = append(form,
@@ -104,4 +122,15 @@ func InstanceLoadForm(obj Instance) (form List) {
 	form = append(form, Symbol("inst"))
 
 	return
+}
+
+// freshInstance returns an instance as make-instance starts with or, if the
+// class does not allow that, the instance itself.
+func freshInstance(obj Instance) (fresh Instance) {
+	defer func() {
+		if recover() != nil {
+			fresh = obj
+		}
+	}()
+	return obj.Class().MakeInstance()
 }
